@@ -5,6 +5,7 @@ key contains the hash of /repo's sources (facts.tree_key) and of the checker's o
 is never reused for a different tree or a different checker; `VERIF_NO_CACHE=1` disables it.
 """
 import hashlib
+import re
 import multiprocessing
 import os
 import pickle
@@ -58,7 +59,22 @@ class Recorder(Ctx):
 GEN_RULES = list(rules_gen.ALL_RULES)
 
 
-def analyse_one(prog, exp, expected_kinds=None, keep_lts=False):
+def repo_definitions(repo):
+    """Definitions of the repository's own lexers parsed from the test sources, keyed by
+    (file relative to the repo, line of the invocation)."""
+    from . import defparse
+    out = {}
+    for name in REPO_TEST_CRATES:
+        rel = "crates/lexgen/tests/%s.rs" % name
+        path = os.path.join(repo, rel)
+        if not os.path.exists(path):
+            continue
+        for line, col, d in defparse.find_lexers(path):
+            out[(rel, line)] = d
+    return out
+
+
+def analyse_one(prog, exp, expected_kinds=None, keep_lts=False, definition=None, bsets=None):
     t0 = time.time()
     rec = Recorder()
     res = ExpResult()
@@ -80,6 +96,23 @@ def analyse_one(prog, exp, expected_kinds=None, keep_lts=False):
                      "tables": len(exp.statics), "wrapper_shapes": shapes,
                      "switch_map": getattr(g, "switch_map", {}),
                      "may_saved_reads": sum(1 for v in getattr(g, "may_saved", {}).values() if v)}
+        if definition is not None:
+            from . import wit as _wit
+            if isinstance(definition, Exception):
+                rec.ob("TV", "%s: the definition in the test source is parsed by the documented "
+                       "grammar" % exp.id, False, key="TV:%s:parse" % exp.id, where=exp.span,
+                       detail=str(definition))
+            else:
+                kinds = {i: r.kind for i, r in enumerate(definition.rules_in_order())}
+                for k, kind in sorted(kinds.items()):
+                    rec.ob("R-SUGAR", "%s: rule %d written as %s compiles to the %s wrapper" % (
+                        exp.id, k, kind, kind), shapes.get(k) == kind,
+                        key="R-SUGAR:%s:kind:%d" % (exp.id, k), where=exp.span,
+                        detail={"found": shapes.get(k)})
+                st = _wit.tv_obligations(rec, exp.id, exp.id, definition, exp, L, g, prog,
+                                         bsets or {}, exp.span)
+                res.stats["tv_pairs"] = st.get("pairs", 0) + st.get("ctx_pairs", 0)
+                res.stats["tv_comparisons"] = st.get("comparisons", 0)
         if keep_lts:
             res.extra["lts"] = L
             res.extra["gen"] = g
@@ -100,10 +133,17 @@ _G = {}
 
 def _worker(i):
     prog, exps = _G["prog"], _G["exps"]
-    return analyse_one(prog, exps[i])
+    exp = exps[i]
+    d = None
+    m = re.match(r"^(.*?):(\d+):(\d+): ", exp.span or "")
+    if m and _G.get("defs") is not None:
+        d = _G["defs"].get((m.group(1), int(m.group(2))))
+        if d is None:
+            d = ValueError("no lexer! invocation found at %s" % exp.span)
+    return analyse_one(prog, exp, definition=d, bsets=_G.get("bsets"))
 
 
-def analyse_crate(prog, crate, jobs=None):
+def analyse_crate(prog, crate, jobs=None, with_defs=False):
     exps = lts.find_expansions(crate)
     if not exps:
         return []
@@ -111,6 +151,12 @@ def analyse_crate(prog, crate, jobs=None):
     order = sorted(range(len(exps)), key=lambda i: -len(exps[i].next_body["mir"]["blocks"]))
     _G["prog"], _G["exps"] = prog, exps
     prog.crate("lexgen_util")
+    if with_defs:
+        from . import wit as _wit
+        _G["defs"] = repo_definitions(facts.repo_path())
+        _G["bsets"] = _wit.builtin_sets(prog)
+    else:
+        _G["defs"] = None
     jobs = jobs or min(16, os.cpu_count() or 4)
     if len(exps) == 1 or jobs == 1:
         out = {i: _worker(i) for i in order}
@@ -141,7 +187,7 @@ def repo_gen_results(fdir=None, log=None):
         prog = Program(fdir)
         out = []
         for cn in REPO_TEST_CRATES:
-            out.extend(analyse_crate(prog, prog.crate(cn, test=True)))
+            out.extend(analyse_crate(prog, prog.crate(cn, test=True), with_defs=True))
         os.makedirs(cdir, exist_ok=True)
         tmp = path + ".tmp%d" % os.getpid()
         with open(tmp, "wb") as f:
